@@ -157,6 +157,7 @@ SenderSendMid(s, a, cls) ==
   /\ Len(sentS) < MaxRp
   /\ h.pc = "send" /\ h.a = a
   /\ as[a].st = "used" /\ as[a].open /\ as[a].pc = "read" /\ inT[a] = <<>>
+  /\ \E e \in Range(outT) : e.a = a      \* somebody has seen the association's source port (not before its first datagram)
   /\ LET r == [id |-> Len(sentS) + 1, src |-> s, a |-> a, sz |-> RSz(cls, as[a].key, s),
                nw |-> Len(SelectSeq(outT, LAMBDA e : e.a = a)), t |-> now, fits |-> TRUE] IN
        /\ sentS' = Append(sentS, r)
@@ -444,13 +445,22 @@ TimeoutOf(e) == IF IsDns(e.dst) THEN DNST ELSE T
 \* the promise made to the client: every datagram forwarded while the association was still within its promise
 \* extends it to (time of the datagram + timeout); a datagram forwarded through an association whose time had
 \* already run out (it races with the teardown) promises nothing
-RECURSIVE Prom(_, _, _)
-Prom(ws, i, p) == IF i > Len(ws) THEN p
-                  ELSE Prom(ws, i + 1, IF p = -1 \/ ws[i].ts + Slack < p THEN Max(p, ws[i].ts + TimeoutOf(ws[i])) ELSE p)
-Promise(a) == Prom(WritesOf(a), 1, -1)
+\* a send that FAILS (seen as an ERR_WRITE report for the datagram) has extended the association's deadline all the same -
+\* onWrite runs before the socket's WriteTo -, but promises nothing
+FailedOf(a) == {m \in Range(mlogH) : m.ev = "PktC" /\ m.a = a /\ m.st = "ERR_WRITE"}
+FailDl(a, t) == LET S == {m.t + TimeoutOf(Dg(m.did)) : m \in {x \in FailedOf(a) : x.t <= t}} IN
+                  IF S = {} THEN -1 ELSE CHOOSE x \in S : \A y \in S : y <= x
+RECURSIVE Prom(_, _, _, _)
+Prom(a, ws, i, p) == IF i > Len(ws) THEN p
+                     ELSE LET dl == Max(p, FailDl(a, ws[i].ts)) IN     \* where the deadline stood when this datagram was sent
+                       Prom(a, ws, i + 1, IF dl = -1 \/ ws[i].ts + Slack < dl THEN Max(p, ws[i].ts + TimeoutOf(ws[i])) ELSE p)
+Promise(a) == Prom(a, WritesOf(a), 1, -1)
 \* latest instant the association's deadline can be at (ts = when the client sent, t = when the target received)
-PromiseHi(a) == LET ws == WritesOf(a) IN
-                  IF ws = <<>> THEN -1 ELSE LET S == {ws[i].t + TimeoutOf(ws[i]) : i \in 1..Len(ws)} IN CHOOSE x \in S : \A y \in S : y <= x
+\* (a send that FAILS has extended the deadline all the same - onWrite runs before the socket's WriteTo -; it is seen as an
+\* ERR_WRITE report for the datagram)
+PromiseHi(a) == LET ws == WritesOf(a)
+                    S == {ws[i].t + TimeoutOf(ws[i]) : i \in 1..Len(ws)} \cup {m.t + TimeoutOf(Dg(m.did)) : m \in FailedOf(a)} IN
+                  IF S = {} THEN -1 ELSE CHOOSE x \in S : \A y \in S : y <= x
 \* the fast close may have fired: the first datagram was a DNS query and a port-53 sender has answered
 \* (the latch is armed from creation, udp.go:261, so a port-53 datagram that reaches the socket before the first
 \* WriteTo - a window of microseconds in which nobody knows the port - also fires it: r.nw = 0)
@@ -473,27 +483,29 @@ NoEarlyClose == \A a \in AIds : \A x \in Range(ClsOf(a)) : Excused(a) \/ x.t >= 
 RemoveOnce == \A a \in AIds : Len(RemsOf(a)) <= 1
 \* once the deadline has passed without client traffic the association is torn down within bounded time
 \* (evaluated when the proxy is quiescent; Bound = 0 in the model and under virtual time)
-ReclaimedInTime == Quiet => \A m \in Adds : (Len(WritesOf(m.a)) >= 1 /\ now > PromiseHi(m.a) + Bound) => Len(RemsOf(m.a)) = 1
+ReclaimedInTime == Quiet => \A m \in Adds : (PromiseHi(m.a) # -1 /\ now > PromiseHi(m.a) + Bound) => Len(RemsOf(m.a)) = 1
 CloseOnce == \A a \in AIds : Len(ClsOf(a)) <= 1
 \* shutting the listener down expires every association: once Handle has returned and things have settled, every
 \* association that was added has been removed
 ShutdownReclaimed == (h.pc = "returned" /\ Quiet) => \A m \in Adds : Len(RemsOf(m.a)) = 1
 \* fast close: only on a reply from port 53, only when exactly one datagram (a DNS query) had been written
 \* and nothing had been read before; and in that situation it does fire (deadline := now)
-NWr(co, i) == Cardinality({j \in 1..(i - 1) : co[j].op = "wr"})
+\* write attempts: "wr" succeeded, "we" failed - natconn.onWrite ran for both
+IsW(o) == o.op \in {"wr", "we"}
+NWr(co, i) == Cardinality({j \in 1..(i - 1) : IsW(co[j])})
 NRd(co, i) == Cardinality({j \in 1..(i - 1) : co[j].op = "rd"})
 FastCloseRule == \A a \in AIds : LET co == conn[a] IN
                    \A i \in 1..Len(co) :
                      /\ (co[i].op = "dl" /\ co[i].why = "fast") =>
                           /\ co[i].dl = co[i].t /\ i > 1 /\ co[i - 1].op = "rd" /\ IsDns(co[i - 1].x)
                           /\ NRd(co, i - 1) = 0
-                          /\ NWr(co, i) <= 1 /\ \A j \in 1..(i - 1) : co[j].op = "wr" => IsDns(co[j].x)
+                          /\ NWr(co, i) <= 1 /\ \A j \in 1..(i - 1) : IsW(co[j]) => IsDns(co[j].x)
                           \* ... and the deadline of a second datagram had not been set: the deadline never moves earlier
                           /\ Cardinality({j \in 1..(i - 1) : co[j].op = "dl" /\ co[j].why = "write"}) <= 1
                      /\ (co[i].op = "rd" /\ IsDns(co[i].x) /\ NRd(co, i) = 0 /\ NWr(co, i) = 1
                           /\ ~(h.pc = "send" /\ h.a = a)      \* no datagram in flight to this association
-                          /\ (\E j \in 1..(i - 1) : co[j].op = "wr" /\ IsDns(co[j].x))
-                          /\ (\A j \in (i + 1)..Len(co) : co[j].op # "wr")) =>     \* no second datagram racing with it
+                          /\ (\E j \in 1..(i - 1) : IsW(co[j]) /\ IsDns(co[j].x))
+                          /\ (\A j \in (i + 1)..Len(co) : ~IsW(co[j]))) =>     \* no second datagram racing with it
                           i < Len(co) /\ co[i + 1].op = "dl" /\ co[i + 1].why = "fast"
 
 \* ---- C16 ----
